@@ -235,9 +235,15 @@ def ownership_obligations(world, prop='C08'):
                     if e.origin.startswith('F:') and not e.origin.endswith('/'):
                         mutated.setdefault(e.origin[2:], []).append((fi.qualname, e))
         fhash = src_hash(ast.dump(gi.node))
-        bad = [(a, mutated[a]) for a in shared if a in mutated]
-        text = (f'{cname}.__getitem__ shares {sorted(shared)} with the parent by reference; none '
-                'of them is mutated in place by any method of the class')
+        # cached lazy values are re-sliced into the child (a basic slice of an array is a view of
+        # the parent's cached array), so they are shared state too
+        lazies = set()
+        for k in cls.mro(world):
+            lazies |= {fi.name for fi in k.methods.values() if fi.is_lazy}
+        bad = [(a, mutated[a]) for a in sorted(shared | lazies) if a in mutated]
+        text = (f'{cname}.__getitem__ shares {sorted(shared)} (by reference) and every cached '
+                'lazy value (re-sliced: views for slice indices) with the parent; none of them is '
+                'mutated in place by any public method of the class')
         if not bad:
             obs.append(Obligation(oid, prop, 'effects', DISCHARGED, backend='effects',
                                   functions=[f'{gi.target}#{fhash}'], text=text))
